@@ -80,7 +80,9 @@ func c13Gen(runSeed uint64, tier string) *gen.Scenario {
 			r.Kind = "ReadStartingWithUser"
 			r.Type = gen.Pick(g, []string{"doc", "group"})
 			r.Rel = gen.Pick(g, uRels)
-			r.User = gen.Pick(g, []string{"user:a", "user:a,user:*", "group:1#member", "user:b,group:1#member,user:b", "doc:2", "user:*", "doc:2#member,group:1#viewer", "group:1#member,doc:2#viewer"})
+			r.User = gen.Pick(g, []string{"user:a", "user:a,user:*", "group:1#member", "user:b,group:1#member,user:b", "doc:2", "user:*", "doc:2#member,group:1#viewer", "group:1#member,doc:2#viewer",
+				// one object named twice, as an object and as usersets of it
+				"group:1#member,group:1#viewer", "doc:2,doc:2#member", "doc:2#viewer,doc:2", "doc:2#member,doc:2#viewer,doc:2"})
 			// object id set encoded in Filter: "-" = nil, "" = present but empty
 			r.Filter = gen.Pick(g, []string{"-", "-", "", "1", "1,2", "2,9"})
 			r.HC = g.Chance(0.5) // sorted ascending
